@@ -160,13 +160,35 @@ func matchExpected(exp, obs []string) string {
 	if len(exp) != len(obs) {
 		return fmt.Sprintf("expected %d entries %q, observed %d %q", len(exp), exp, len(obs), obs)
 	}
+	name := func(s string) string {
+		if k := strings.LastIndex(s, "::"); k > 0 {
+			return s[:k]
+		}
+		return s
+	}
+	// inside a run of same-name columns an undecided type ("::?") makes the order of the run
+	// undecided too: compare names only there
+	loose := make([]bool, len(exp))
+	for i := 0; i < len(exp); {
+		j := i + 1
+		for j < len(exp) && name(exp[j]) == name(exp[i]) {
+			j++
+		}
+		any := false
+		for k := i; k < j; k++ {
+			if strings.HasSuffix(exp[k], "::?") {
+				any = true
+			}
+		}
+		for k := i; k < j; k++ {
+			loose[k] = any
+		}
+		i = j
+	}
 	for i := range exp {
 		e, o := exp[i], obs[i]
-		if strings.HasSuffix(e, "::?") {
-			e = strings.TrimSuffix(e, "::?")
-			if k := strings.LastIndex(o, "::"); k > 0 {
-				o = o[:k]
-			}
+		if loose[i] {
+			e, o = name(e), name(o)
 		}
 		if e != o {
 			return fmt.Sprintf("entry %d: expected %s, observed %s (all expected %q, observed %q)", i, exp[i], obs[i], exp, obs)
